@@ -1,6 +1,13 @@
 import SuxModel.Func.LemmasPar
 /-!
-# `par_solve`: which shards an `Ok` run has solved (second invariant), the theorems, the counterexample
+# `par_solve`: which shards an `Ok` run has solved, the theorems, the counterexample
+
+`cont` is the statement in `if shard.is_empty() { … }` (`true` = `continue;`, `false` = `return;`).
+* `Inv3` (`cont = true`): no worker dies before the producer has finished and the channel is
+  drained → `par_solve_complete`: every terminal error-free state has solved every non-empty shard.
+* `Inv2` (any `cont`): FIFO argument → `par_solve_complete_suffix`: the same under the hypothesis
+  that the empty shards form a suffix (what made `return;` harmless in practice).
+* `early_return_counterexample` (`cont = false`): the history of defect D31.
 -/
 set_option linter.unusedSimpArgs false
 set_option linter.unusedVariables false
@@ -29,10 +36,10 @@ theorem inv2_init (c : Cfg) (chunks0 : Array (Array Nat)) :
   · intro h; simp [init] at h
   · intro _; left; simp [init]
 
-theorem inv2_step (c : Cfg) (chunks0 : Array (Array Nat)) (s s' : St) (e : Ev)
+theorem inv2_step (c : Cfg) (cont : Bool) (chunks0 : Array (Array Nat)) (s s' : St) (e : Ev)
     (hup : ∀ j j', c.empty j = true → j ≤ j' → c.empty j' = true) (hT : 0 < c.threads)
     (h1 : Inv1 c chunks0 s) (h : Inv2 c chunks0.size s)
-    (hs : step c chunks0.size s e = some s') : Inv2 c chunks0.size s' := by
+    (hs : step c cont chunks0.size s e = some s') : Inv2 c chunks0.size s' := by
   cases e with
   | send =>
     simp only [step] at hs
@@ -114,21 +121,20 @@ theorem inv2_step (c : Cfg) (chunks0 : Array (Array Nat)) (s s' : St) (e : Ev)
         have hxc : x ∈ s.chan := by rw [hch]; exact List.mem_cons_self
         have hxn : x < s.next := h1.lt x (Or.inl hxc)
         split at hs
-        · -- an empty shard: the worker returns
+        · -- an empty shard
           rename_i hex
-          injection hs with hs; subst hs
-          refine ⟨hsr, h.ne, fun he => ?_⟩
-          have hc0 := h.cond he
-          refine ⟨?_, ?_, fun hse => by simp at hse⟩
-          · intro j hj hne
-            rcases hc0.keep j hj hne with k | k | k
+          have hkeep : s.errs = [] → ∀ j, j < s.next → c.empty j = false →
+              j ∈ rest ∨ j ∈ s.busy ∨ j ∈ s.done := by
+            intro he j hj hne
+            rcases (h.cond he).keep j hj hne with k | k | k
             · rw [hch] at k
               rcases List.mem_cons.mp k with e | e
               · subst e; rw [hex] at hne; exact absurd hne (by simp)
               · left; exact e
             · right; left; exact k
             · right; right; exact k
-          · intro _ j hj hne
+          have hfifo : ∀ j, j < chunks0.size → c.empty j = false → j < s.next ∧ j ∉ rest := by
+            intro j hj hne
             have hjx : j < x := by
               apply Nat.lt_of_not_le
               intro hle
@@ -137,6 +143,19 @@ theorem inv2_step (c : Cfg) (chunks0 : Array (Array Nat)) (s s' : St) (e : Ev)
             refine ⟨Nat.lt_trans hjx hxn, fun hm => ?_⟩
             have := hgt j hm
             omega
+          split at hs
+          · -- `continue`: the worker goes back to `recv`
+            injection hs with hs; subst hs
+            refine ⟨hsr, h.ne, fun he => ?_⟩
+            have hc0 := h.cond he
+            refine ⟨hkeep he, fun _ => hfifo, fun hse => ?_⟩
+            rcases hc0.c2 hse with r | ⟨_, _, a⟩
+            · left; exact r
+            · rw [hch] at a; exact absurd a (by simp)
+          · -- `return`: the worker is gone
+            injection hs with hs; subst hs
+            refine ⟨hsr, h.ne, fun he => ?_⟩
+            exact ⟨hkeep he, fun _ => hfifo, fun hse => by simp at hse⟩
         · rename_i hex
           injection hs with hs; subst hs
           have hex' : c.empty x = false := by simpa using hex
@@ -238,44 +257,48 @@ theorem inv2_step (c : Cfg) (chunks0 : Array (Array Nat)) (s s' : St) (e : Ev)
               · right; exact r
     · simp at hs
 
-theorem inv12_run (c : Cfg) (chunks0 : Array (Array Nat))
+theorem inv12_run (c : Cfg) (cont : Bool) (chunks0 : Array (Array Nat))
     (hup : ∀ j j', c.empty j = true → j ≤ j' → c.empty j' = true) (hT : 0 < c.threads) :
     ∀ (evs : List Ev) (s s' : St), Inv1 c chunks0 s → Inv2 c chunks0.size s →
-      run c chunks0.size s evs = some s' → Inv1 c chunks0 s' ∧ Inv2 c chunks0.size s' := by
+      run c cont chunks0.size s evs = some s' → Inv1 c chunks0 s' ∧ Inv2 c chunks0.size s' := by
   intro evs
   induction evs with
   | nil => intro s s' h1 h2 hr; simp only [run] at hr; injection hr with hr; subst hr; exact ⟨h1, h2⟩
   | cons e evs ih =>
     intro s s' h1 h2 hr
     simp only [run] at hr
-    cases hst : step c chunks0.size s e with
+    cases hst : step c cont chunks0.size s e with
     | none => rw [hst] at hr; simp at hr
     | some s1 =>
       rw [hst] at hr
-      exact ih s1 s' (inv1_step c chunks0 s s1 e h1 hst) (inv2_step c chunks0 s s1 e hup hT h1 h2 hst) hr
+      exact ih s1 s' (inv1_step c cont chunks0 s s1 e h1 hst)
+        (inv2_step c cont chunks0 s s1 e hup hT h1 h2 hst) hr
 
 /-! ## theorems -/
 
 /-- **Schedule independence.**  Whatever the schedule: if `par_solve` returns `Ok` (no error was
     sent), then the chunk of every shard that was processed is `solve j` of its *initial* chunk
     — the value the sequential left-to-right run computes — and every other chunk is untouched. -/
-theorem par_solve_pointwise (c : Cfg) (chunks0 : Array (Array Nat)) (evs : List Ev) (s : St)
-    (hr : run c chunks0.size (init c chunks0) evs = some s) (hok : s.errs = []) :
+theorem par_solve_pointwise (c : Cfg) (cont : Bool) (chunks0 : Array (Array Nat)) (evs : List Ev)
+    (s : St) (hr : run c cont chunks0.size (init c chunks0) evs = some s) (hok : s.errs = []) :
     s.chunks.size = chunks0.size ∧ ∀ j,
       (j ∈ s.done → ∃ ch, c.solve j (chunks0.getD j #[]) = some ch ∧ s.chunks.getD j #[] = ch) ∧
       (j ∉ s.done → s.chunks.getD j #[] = chunks0.getD j #[]) := by
-  have h1 := inv1_run c chunks0 evs _ s (inv1_init c chunks0) hr
+  have h1 := inv1_run c cont chunks0 evs _ s (inv1_init c chunks0) hr
   exact ⟨h1.sz, h1.val hok⟩
 
 /-- **Completeness of an `Ok` run when the empty shards form a suffix** (in particular when no
-    shard is empty): in a terminal state without errors every non-empty shard has been solved.
-    So the early `return` on an empty shard is harmless when all remaining shards are empty. -/
-theorem par_solve_complete (c : Cfg) (chunks0 : Array (Array Nat)) (evs : List Ev) (s : St)
+    shard is empty), for either statement: in a terminal state without errors every non-empty
+    shard has been solved.  So `return;` on an empty shard was harmless when all remaining shards
+    were empty. -/
+theorem par_solve_complete_of_suffix (c : Cfg) (cont : Bool) (chunks0 : Array (Array Nat))
+    (evs : List Ev) (s : St)
     (hup : ∀ j j', c.empty j = true → j ≤ j' → c.empty j' = true) (hT : 0 < c.threads)
-    (hr : run c chunks0.size (init c chunks0) evs = some s)
+    (hr : run c cont chunks0.size (init c chunks0) evs = some s)
     (hterm : s.terminal = true) (hok : s.errs = []) :
     ∀ j, j < chunks0.size → c.empty j = false → j ∈ s.done := by
-  obtain ⟨h1, h2⟩ := inv12_run c chunks0 hup hT evs _ s (inv1_init c chunks0) (inv2_init c chunks0) hr
+  obtain ⟨h1, h2⟩ := inv12_run c cont chunks0 hup hT evs _ s (inv1_init c chunks0)
+    (inv2_init c chunks0) hr
   have hc := h2.cond hok
   simp only [St.terminal, Bool.and_eq_true, beq_iff_eq, List.isEmpty_iff] at hterm
   obtain ⟨⟨hpd, hidle⟩, hbusy⟩ := hterm
@@ -353,8 +376,8 @@ theorem seqSolve_eq (c : Cfg) (chunks0 F : Array (Array Nat)) (hsz : F.size = ch
 /-- shards in progress or done are non-empty (empty ones are dropped at `recv`) -/
 def NE (c : Cfg) (s : St) : Prop := ∀ j, (j ∈ s.busy ∨ j ∈ s.done) → c.empty j = false
 
-theorem ne_step (c : Cfg) (S : Nat) (s s' : St) (e : Ev) (h : NE c s)
-    (hs : step c S s e = some s') : NE c s' := by
+theorem ne_step (c : Cfg) (cont : Bool) (S : Nat) (s s' : St) (e : Ev) (h : NE c s)
+    (hs : step c cont S s e = some s') : NE c s' := by
   cases e with
   | send =>
     simp only [step] at hs
@@ -382,7 +405,9 @@ theorem ne_step (c : Cfg) (S : Nat) (s s' : St) (e : Ev) (h : NE c s)
     · simp at hs
     · split at hs
       · split at hs
-        · injection hs with hs; subst hs; exact h
+        · split at hs
+          · injection hs with hs; subst hs; exact h
+          · injection hs with hs; subst hs; exact h
         · rename_i hex
           injection hs with hs; subst hs
           intro j hj
@@ -421,28 +446,28 @@ theorem ne_step (c : Cfg) (S : Nat) (s s' : St) (e : Ev) (h : NE c s)
             · injection hs with hs; subst hs; exact h''
     · simp at hs
 
-theorem ne_run (c : Cfg) (S : Nat) :
-    ∀ (evs : List Ev) (s s' : St), NE c s → run c S s evs = some s' → NE c s' := by
+theorem ne_run (c : Cfg) (cont : Bool) (S : Nat) :
+    ∀ (evs : List Ev) (s s' : St), NE c s → run c cont S s evs = some s' → NE c s' := by
   intro evs
   induction evs with
   | nil => intro s s' h hr; simp only [run] at hr; injection hr with hr; subst hr; exact h
   | cons e evs ih =>
     intro s s' h hr
     simp only [run] at hr
-    cases hst : step c S s e with
+    cases hst : step c cont S s e with
     | none => rw [hst] at hr; simp at hr
-    | some s1 => rw [hst] at hr; exact ih s1 s' (ne_step c S s s1 e h hst) hr
+    | some s1 => rw [hst] at hr; exact ih s1 s' (ne_step c cont S s s1 e h hst) hr
 
 /-- **Schedule independence, global form.**  For every schedule that ends in a terminal state
     without error and in which every non-empty shard was processed, the backend equals the result
     of the sequential left-to-right run. -/
-theorem par_solve_eq_seq (c : Cfg) (chunks0 : Array (Array Nat)) (evs : List Ev) (s : St)
-    (hT : 0 < c.threads)
-    (hr : run c chunks0.size (init c chunks0) evs = some s) (hok : s.errs = [])
+theorem par_solve_eq_seq (c : Cfg) (cont : Bool) (chunks0 : Array (Array Nat)) (evs : List Ev)
+    (s : St)
+    (hr : run c cont chunks0.size (init c chunks0) evs = some s) (hok : s.errs = [])
     (hall : ∀ j, j < chunks0.size → c.empty j = false → j ∈ s.done) :
     seqSolve c chunks0 = some s.chunks := by
-  have h1 := inv1_run c chunks0 evs _ s (inv1_init c chunks0) hr
-  have hne' := ne_run c chunks0.size evs _ s (by intro j hj; simp [init] at hj) hr
+  have h1 := inv1_run c cont chunks0 evs _ s (inv1_init c chunks0) hr
+  have hne' := ne_run c cont chunks0.size evs _ s (by intro j hj; simp [init] at hj) hr
   have hv := h1.val hok
   apply seqSolve_eq c chunks0 s.chunks h1.sz
   intro j hj
@@ -453,6 +478,204 @@ theorem par_solve_eq_seq (c : Cfg) (chunks0 : Array (Array Nat)) (evs : List Ev)
     rw [he] at this; exact absurd this (by simp)
   · obtain ⟨ch, h2, h3⟩ := (hv j).1 (hall j hj hn)
     rw [h3]; exact h2
+
+/-! ## `continue;`: no suffix hypothesis -/
+
+/-- invariant for `cont = true`: while no error has been sent, non-empty sent shards are never
+    lost, and either no worker has ended or the producer finished normally and the channel is
+    drained -/
+structure Inv3 (c : Cfg) (S : Nat) (s : St) : Prop where
+  keep : s.errs = [] → ∀ j, j < s.next → c.empty j = false → j ∈ s.chan ∨ j ∈ s.busy ∨ j ∈ s.done
+  alive : s.errs = [] →
+    (s.idle + s.busy.length = c.threads ∧ (s.prodDone = true → s.next = S)) ∨
+    (s.prodDone = true ∧ s.next = S ∧ s.chan = [])
+
+theorem inv3_init (c : Cfg) (chunks0 : Array (Array Nat)) :
+    Inv3 c chunks0.size (init c chunks0) := by
+  refine ⟨fun _ j hj => by simp [init] at hj, fun _ => ?_⟩
+  left; simp [init]
+
+theorem inv3_step (c : Cfg) (chunks0 : Array (Array Nat)) (s s' : St) (e : Ev)
+    (hT : 0 < c.threads) (h1 : Inv1 c chunks0 s) (h : Inv3 c chunks0.size s)
+    (hs : step c true chunks0.size s e = some s') : Inv3 c chunks0.size s' := by
+  cases e with
+  | send =>
+    simp only [step] at hs
+    split at hs
+    · rename_i hc
+      injection hs with hs; subst hs
+      refine ⟨fun he j hj hne => ?_, fun he => ?_⟩
+      · show j ∈ s.chan ++ [s.next] ∨ _
+        have hj' : j < s.next + 1 := hj
+        by_cases hjn : j = s.next
+        · left; simp [hjn]
+        · rcases h.keep he j (by omega) hne with k | k | k
+          · left; simp [k]
+          · right; left; exact k
+          · right; right; exact k
+      · rcases h.alive he with ⟨a, b⟩ | ⟨a, _, _⟩
+        · left
+          refine ⟨a, fun hp => ?_⟩
+          have : s.prodDone = true := hp
+          rw [hc.2.1] at this; exact absurd this (by simp)
+        · rw [hc.2.1] at a; exact absurd a (by simp)
+    · simp at hs
+  | sendFail =>
+    simp only [step] at hs
+    split at hs
+    · rename_i hc
+      injection hs with hs; subst hs
+      refine ⟨h.keep, fun he => ?_⟩
+      rcases h.alive he with ⟨a, _⟩ | ⟨a, _, _⟩
+      · rw [hc.2.2.1, hc.2.2.2] at a
+        simp at a; omega
+      · rw [hc.2.1] at a; exact absurd a (by simp)
+    · simp at hs
+  | prodEnd =>
+    simp only [step] at hs
+    split at hs
+    · rename_i hc
+      injection hs with hs; subst hs
+      refine ⟨h.keep, fun he => ?_⟩
+      rcases h.alive he with ⟨a, _⟩ | ⟨a, _, _⟩
+      · left; exact ⟨a, fun _ => hc.1⟩
+      · rw [hc.2] at a; exact absurd a (by simp)
+    · simp at hs
+  | mainErr =>
+    simp only [step] at hs
+    split at hs
+    · rename_i hc
+      injection hs with hs; subst hs
+      exact ⟨fun he => absurd he hc.1, fun he => absurd he hc.1⟩
+    · simp at hs
+  | recv =>
+    simp only [step] at hs
+    split at hs
+    · simp at hs
+    · rename_i hidle
+      split at hs
+      · rename_i x rest hch
+        split at hs
+        · -- an empty shard: `continue`
+          rename_i hex
+          simp only [if_true] at hs
+          injection hs with hs; subst hs
+          refine ⟨fun he j hj hne => ?_, fun he => ?_⟩
+          · rcases h.keep he j hj hne with k | k | k
+            · rw [hch] at k
+              rcases List.mem_cons.mp k with e | e
+              · subst e; rw [hex] at hne; exact absurd hne (by simp)
+              · left; exact e
+            · right; left; exact k
+            · right; right; exact k
+          · rcases h.alive he with r | ⟨_, _, a⟩
+            · left; exact r
+            · rw [hch] at a; exact absurd a (by simp)
+        · injection hs with hs; subst hs
+          refine ⟨fun he j hj hne => ?_, fun he => ?_⟩
+          · rcases h.keep he j hj hne with k | k | k
+            · rw [hch] at k
+              rcases List.mem_cons.mp k with e | e
+              · subst e; right; left; exact List.mem_cons_self
+              · left; exact e
+            · right; left; exact List.mem_cons_of_mem _ k
+            · right; right; exact k
+          · rcases h.alive he with ⟨a, b⟩ | ⟨_, _, a⟩
+            · left
+              refine ⟨?_, b⟩
+              show s.idle - 1 + (x :: s.busy).length = c.threads
+              simp only [List.length_cons]; omega
+            · rw [hch] at a; exact absurd a (by simp)
+      · rename_i hch
+        split at hs
+        · rename_i hpd
+          injection hs with hs; subst hs
+          refine ⟨h.keep, fun he => ?_⟩
+          right
+          rcases h.alive he with ⟨_, b⟩ | ⟨_, b, _⟩
+          · exact ⟨hpd, b hpd, hch⟩
+          · exact ⟨hpd, b, hch⟩
+        · simp at hs
+  | work j b1 b2 b3 =>
+    simp only [step] at hs
+    split at hs
+    · rename_i hj
+      split at hs
+      · injection hs with hs; subst hs
+        exact ⟨fun he => by simp at he, fun he => by simp at he⟩
+      · split at hs
+        · rename_i hfb
+          injection hs with hs; subst hs
+          have hf : s.failed = true := by
+            simp only [Bool.and_eq_true] at hfb; exact hfb.1
+          exact ⟨fun he => absurd he (h1.fl hf), fun he => absurd he (h1.fl hf)⟩
+        · split at hs
+          · injection hs with hs; subst hs
+            exact ⟨fun he => by simp at he, fun he => by simp at he⟩
+          · have hkeep : s.errs = [] → ∀ i, i < s.next → c.empty i = false →
+                i ∈ s.chan ∨ i ∈ s.busy.erase j ∨ i ∈ j :: s.done := by
+              intro he i hi hne
+              rcases h.keep he i hi hne with k | k | k
+              · left; exact k
+              · by_cases hij : i = j
+                · right; right; simp [hij]
+                · right; left; exact (List.mem_erase_of_ne hij).mpr k
+              · right; right; exact List.mem_cons_of_mem _ k
+            split at hs
+            · rename_i hfb
+              injection hs with hs; subst hs
+              have hf : s.failed = true := by
+                simp only [Bool.and_eq_true] at hfb; exact hfb.1
+              exact ⟨fun he => absurd he (h1.fl hf), fun he => absurd he (h1.fl hf)⟩
+            · injection hs with hs; subst hs
+              refine ⟨hkeep, fun he => ?_⟩
+              rcases h.alive he with ⟨a, b⟩ | r
+              · left
+                refine ⟨?_, b⟩
+                show s.idle + 1 + (s.busy.erase j).length = c.threads
+                rw [List.length_erase_of_mem hj]
+                have := List.length_pos_of_mem hj
+                omega
+              · right; exact r
+    · simp at hs
+
+theorem inv13_run (c : Cfg) (chunks0 : Array (Array Nat)) (hT : 0 < c.threads) :
+    ∀ (evs : List Ev) (s s' : St), Inv1 c chunks0 s → Inv3 c chunks0.size s →
+      run c true chunks0.size s evs = some s' → Inv1 c chunks0 s' ∧ Inv3 c chunks0.size s' := by
+  intro evs
+  induction evs with
+  | nil => intro s s' h1 h2 hr; simp only [run] at hr; injection hr with hr; subst hr; exact ⟨h1, h2⟩
+  | cons e evs ih =>
+    intro s s' h1 h2 hr
+    simp only [run] at hr
+    cases hst : step c true chunks0.size s e with
+    | none => rw [hst] at hr; simp at hr
+    | some s1 =>
+      rw [hst] at hr
+      exact ih s1 s' (inv1_step c true chunks0 s s1 e h1 hst)
+        (inv3_step c chunks0 s s1 e hT h1 h2 hst) hr
+
+/-- **`par_solve` with `continue;` is complete.**  With at least one thread, in EVERY terminal
+    error-free state of EVERY schedule every non-empty shard has been solved, and the backend
+    equals the sequential left-to-right result — whatever shards are empty. -/
+theorem par_solve_complete (c : Cfg) (chunks0 : Array (Array Nat)) (evs : List Ev) (s : St)
+    (hT : 0 < c.threads)
+    (hr : run c true chunks0.size (init c chunks0) evs = some s)
+    (hterm : s.terminal = true) (hok : s.errs = []) :
+    (∀ j, j < chunks0.size → c.empty j = false → j ∈ s.done) ∧
+    seqSolve c chunks0 = some s.chunks := by
+  obtain ⟨h1, h3⟩ := inv13_run c chunks0 hT evs _ s (inv1_init c chunks0) (inv3_init c chunks0) hr
+  simp only [St.terminal, Bool.and_eq_true, beq_iff_eq, List.isEmpty_iff] at hterm
+  obtain ⟨⟨hpd, hidle⟩, hbusy⟩ := hterm
+  have hall : ∀ j, j < chunks0.size → c.empty j = false → j ∈ s.done := by
+    intro j hj hne
+    rcases h3.alive hok with ⟨a, _⟩ | ⟨_, a, b⟩
+    · rw [hidle, hbusy] at a; simp at a; omega
+    · rcases h3.keep hok j (by omega) hne with k | k | k
+      · rw [b] at k; simp at k
+      · rw [hbusy] at k; simp at k
+      · exact k
+  exact ⟨hall, par_solve_eq_seq c true chunks0 evs s hr hok hall⟩
 
 /-! ## the early `return` on an empty shard: counterexample -/
 
@@ -475,21 +698,30 @@ def cexFinal : St :=
     `cexFinal`: no error was sent, so `par_solve` returns `Ok(())` — and shard 1 (non-empty) was
     never solved: its chunk is still `#[0]`, whereas the sequential run yields `#[7]`. -/
 theorem early_return_counterexample :
-    run cexCfg cexChunks.size (init cexCfg cexChunks) cexSchedule = some cexFinal ∧
+    run cexCfg false cexChunks.size (init cexCfg cexChunks) cexSchedule = some cexFinal ∧
       cexFinal.terminal = true ∧ cexFinal.errs = [] ∧ cexFinal.chunks = #[#[0], #[0]] ∧
       cexCfg.empty 1 = false ∧ 1 ∉ cexFinal.done ∧
       seqSolve cexCfg cexChunks = some #[#[0], #[7]] := by
   refine ⟨by decide, by decide, by decide, by decide, by decide, by decide, by decide⟩
 
-/-- the same two shards in the other order (the empty one last): every `Ok` run is complete -/
+/-- the same two shards in the other order (the empty one last): every `Ok` run is complete even
+    with `return;` -/
 def okCfg : Cfg := { cexCfg with empty := fun j => decide (1 ≤ j) }
 
 example (evs : List Ev) (s : St)
-    (hr : run okCfg cexChunks.size (init okCfg cexChunks) evs = some s)
+    (hr : run okCfg false cexChunks.size (init okCfg cexChunks) evs = some s)
     (hterm : s.terminal = true) (hok : s.errs = []) : 0 ∈ s.done := by
-  refine par_solve_complete okCfg cexChunks evs s ?_ (by decide) hr hterm hok 0 (by decide) (by decide)
+  refine par_solve_complete_of_suffix okCfg false cexChunks evs s ?_ (by decide) hr hterm hok 0
+    (by decide) (by decide)
   intro j j' hj hle
   simp only [okCfg, decide_eq_true_eq] at hj ⊢
   omega
+
+/-- with `continue;` the schedule of the counterexample is not even executable (the producer's
+    `send` cannot fail while the worker is alive), and the fair continuation solves shard 1 -/
+example : run cexCfg true cexChunks.size (init cexCfg cexChunks) cexSchedule = none := by decide
+example : (run cexCfg true cexChunks.size (init cexCfg cexChunks)
+    [.send, .recv, .send, .recv, .work 1 false false false, .prodEnd, .recv]).map (·.chunks)
+      = some #[#[0], #[7]] := by decide
 
 end Sux.Func.Par
